@@ -206,7 +206,30 @@ func (ex *Exec) recordUncaughtPanic(gp *goPanic) {
 func (ex *Exec) assertMsg(_ *term.T, id string, msg string) {
 	gp := &goPanic{msg: msg}
 	rec := assertRec{ID: id, Status: "violated"}
+	// known-finding regions apply to unconditional violations (uncaught panics, non-termination)
+	// exactly as to assertions: excluded from the violation query, reported separately
+	notKnown := ex.tb.True
+	for _, kr := range ex.sh.Known {
+		if kr.AssertID != id {
+			continue
+		}
+		rt, ok := kr.Expr.Compile(ex)
+		if !ok {
+			continue
+		}
+		notKnown = ex.tb.BAnd(notKnown, ex.tb.BNot(rt))
+		ex.sol.Push()
+		ex.sol.Assert(rt)
+		if ex.sol.Check() == smt.Sat {
+			if m, err := ex.modelOfDraws(); err == nil {
+				ex.asserts = append(ex.asserts, assertRec{ID: id, Status: "known", KnownID: kr.FindingID, Model: m, Msg: msg})
+			}
+		}
+		ex.nQueries++
+		ex.sol.Pop()
+	}
 	ex.sol.Push()
+	ex.sol.Assert(notKnown)
 	r := ex.sol.Check()
 	if r == smt.Sat {
 		if m, err := ex.modelOfDraws(); err == nil {
